@@ -362,8 +362,11 @@ def rule_arg_capture(ctx: Ctx, repo: Repo) -> None:
             ctx.check(nm in got and got[nm] == R("typeof", of=S("val:" + nm)), "R-C02.5", fi.fq,
                       f"named parameter `{nm}` (positional-only / regular / keyword-only) is recorded with get_type of its own local",
                       construct=f"arg_types[{nm!r}] = {got.get(nm)}")
-        extra = set(got) - set(expected) - set(variadic)
-        ctx.check(not extra, "R-C02.5", fi.fq, "nothing but parameters is recorded as an argument", construct=f"extra names {sorted(extra)}")
+        extra = set(got) - set(expected)
+        # *args / **kwargs are not named parameters: a type recorded under their name would be rendered as the annotation
+        # of every extra argument (`*args: Tuple[int, int]`), which the observed extra arguments do not belong to
+        ctx.check(not extra, "R-C02.5", fi.fq, "nothing but the named parameters is recorded as an argument (no variadic collector, no local)",
+                  construct=f"extra names {sorted(extra)}" + (" (variadic collectors)" if extra and extra <= set(variadic) else ""))
         for e in effs:
             if e[0] == "get_type":
                 ctx.check(e[2] == S("self.max_typed_dict_size"), "R-C02.5", fi.fq,
